@@ -1,7 +1,7 @@
 //! Directed seeds ("generator output" in the property's corpus definition): arity and error
 //! edges that mutation from well-formed tests reaches slowly. Deterministic list.
 
-use crate::gen::{is_valid_request, KEY_EXPRS, TRAITS};
+use crate::gen::{is_valid_request, KEY_EXPRS, TRAITS, VALUE_EXPRS};
 use crate::req::{lex, Mode, Request};
 
 const SHAPES: &[&str] = &[
@@ -288,6 +288,45 @@ pub fn directed() -> Vec<Request> {
             mode: Mode::Derive,
             attr: String::new(),
             item: format!("#[derive_ex(PartialOrd, PartialEq)] enum X {{ A {{ #[partial_ord(key = {e})] r#type: (u8, u8) }}, B }}"),
+        });
+    }
+    // the first of several compared fields carries the helper, in an enum variant and a struct
+    for cmp in ["ord", "partial_ord", "eq", "partial_eq", "hash"] {
+        for (arg, e) in [("by", "f"), ("key", "$.0"), ("by", "|a, b| a == b"), ("key", "{ $ }")] {
+            for item in [
+                format!("enum X {{ A(#[{cmp}({arg} = {e})] (u8, u8), u8, String), B }}"),
+                format!("enum X {{ A {{ #[{cmp}({arg} = {e})] a: (u8, u8), b: u8 }}, B(u8, #[{cmp}({arg} = {e})] (u8, u8), u8) }}"),
+                format!("struct X {{ #[{cmp}({arg} = {e})] a: (u8, u8), b: u8, #[{cmp}({arg} = {e})] c: (u8, u8) }}"),
+            ] {
+                out.push(Request {
+                    mode: Mode::Attr,
+                    attr: "Ord, PartialOrd, Eq, PartialEq, Hash".into(),
+                    item,
+                });
+            }
+        }
+    }
+    // every value expression as a type-level, variant-level and field-level default
+    for e in VALUE_EXPRS {
+        out.push(Request {
+            mode: Mode::Attr,
+            attr: "Default".into(),
+            item: format!("#[default({e})] struct X(u8);"),
+        });
+        out.push(Request {
+            mode: Mode::Attr,
+            attr: "Default".into(),
+            item: format!("struct X<T>(#[default({e})] T, #[default({e}, bound(T))] u8);"),
+        });
+        out.push(Request {
+            mode: Mode::Derive,
+            attr: String::new(),
+            item: format!("#[derive_ex(Default)] #[default({e})] enum X {{ A, B }}"),
+        });
+        out.push(Request {
+            mode: Mode::Attr,
+            attr: "Default".into(),
+            item: format!("enum X {{ #[default({e})] A, #[default] B {{ #[default({e})] a: u8 }} }}"),
         });
     }
     // normalise to the printed token form and drop what is not a valid request
